@@ -399,6 +399,166 @@ print(";".join(bad))
                       {"creation_race": {"nproc": nproc, "rounds": rounds}, "lost": lost[:10]})
 
 
+def kill_round(ctx, work: Path, nproc: int, seed: int):
+    """a writer process is killed (SIGKILL) inside its writing session — in the body, or `cut` bytes into the record it is
+    writing — while other processes keep running sessions on the same library.  The kernel drops the dead process's lock;
+    nobody may hang, readers must see whole records only, the next writer must not append behind the torn tail, and no
+    record of a completed session may be lost."""
+    from molli.storage import Collection, UkvCollectionBackend
+    from harness import ukvlib
+    path = work / f"kill{seed}.ukv"
+    logdir = work / f"killlog{seed}"
+    logdir.mkdir()
+    col0 = Collection(path, UkvCollectionBackend, readonly=False)
+    with col0.writing(timeout=20):
+        for j in range(3):
+            col0[f"base{j}"] = (f"base{j}" * 3).encode()
+    src = r"""
+import sys, os, time, random, json, signal
+sys.path.insert(0, os.environ["VERIF_REPO_PATH"])
+from molli.storage import Collection, UkvCollectionBackend
+path, logf, pid, nsess, seed, victim = sys.argv[1], sys.argv[2], int(sys.argv[3]), int(sys.argv[4]), int(sys.argv[5]), int(sys.argv[6])
+rnd = random.Random(seed * 1000 + pid)
+col = Collection(path, UkvCollectionBackend, readonly=False, bufsize=0 if victim else rnd.choice([-1, 0, 64, 10**6]))
+log = open(logf, "w")
+def ev(*a):
+    log.write(json.dumps([time.monotonic_ns(), pid, *a]) + "\n"); log.flush(); os.fsync(log.fileno())
+class Killer:
+    # lets `left` more bytes reach the file, flushes them, then the process dies
+    def __init__(self, stream, left):
+        self._s, self._left = stream, left
+    def write(self, data):
+        if len(data) >= self._left:
+            self._s.write(data[:self._left]); self._s.flush()
+            os.kill(os.getpid(), signal.SIGKILL)
+        self._left -= len(data)
+        return self._s.write(data)
+    def __getattr__(self, name):
+        return getattr(self._s, name)
+kill_at = rnd.randrange(1, nsess) if victim else -1
+for s in range(nsess):
+    time.sleep(rnd.random() * 0.02)
+    sid = f"{pid}.{s}"
+    if s == kill_at:
+        with col.writing(timeout=60):
+            ev(sid, "begin", "w", sorted(col.keys()))
+            k0 = f"v{pid}s{s}whole"
+            col[k0] = (k0 * 3).encode()
+            ev(sid, "put", "w", [k0])
+            if victim == 1:
+                ev(sid, "kill-in-body", "w", [])
+                os.kill(os.getpid(), signal.SIGKILL)
+            k1 = f"v{pid}s{s}torn"
+            uf = col._backend._ukvfile
+            cut = rnd.randrange(1, 5 + len(k1) + 3 * len(k1))
+            ev(sid, "kill-in-record", "w", [k1, cut])
+            uf._stream = Killer(uf._stream, cut)
+            col[k1] = (k1 * 3).encode()
+        ev(sid, "survived", "w", [])
+        continue
+    write = rnd.random() < 0.6
+    try:
+        if write:
+            with col.writing(timeout=60):
+                ev(sid, "begin", "w", sorted(col.keys()))
+                keys = []
+                for j in range(rnd.randint(1, 3)):
+                    k = f"p{pid}s{s}r{j}"
+                    col[k] = (k * 3).encode()
+                    keys.append(k)
+                    time.sleep(rnd.random() * 0.003)
+                ev(sid, "endbody", "w", keys)
+            ev(sid, "done", "w", keys)
+        else:
+            with col.reading(timeout=60):
+                ks = sorted(col.keys())
+                ev(sid, "begin", "r", ks)
+                bad = [k for k in ks if col[k] != (k * 3).encode()]
+                ev(sid, "endbody", "r", bad)
+            ev(sid, "done", "r", [])
+    except TimeoutError:
+        ev(sid, "timeout", "w" if write else "r", [])
+"""
+    env = dict(os.environ)
+    env["VERIF_REPO_PATH"] = str(common.REPO)
+    nsess = 6
+    victims = {0: 1, 1: 2}           # process 0 dies in the body, process 1 dies inside a record
+    procs = [subprocess.Popen([common.repo_python(), "-c", src, str(path), str(logdir / f"{p}.log"), str(p), str(nsess), str(seed),
+                               str(victims.get(p, 0))], env=env, stdout=subprocess.DEVNULL, stderr=subprocess.PIPE, text=True)
+             for p in range(nproc)]
+    deadline = time.time() + 120
+    hung, errs = False, []
+    for pi, p in enumerate(procs):
+        try:
+            _, e = p.communicate(timeout=max(1, deadline - time.time()))
+            if p.returncode != 0 and not (pi in victims and p.returncode == -9):
+                errs.append(e[-400:])
+        except subprocess.TimeoutExpired:
+            p.kill()
+            hung = True
+    events = []
+    for f in logdir.glob("*.log"):
+        for line in f.read_text().splitlines():
+            try:
+                events.append(json.loads(line))
+            except Exception:
+                pass
+    events.sort()
+    tag = {"kill_round": {"nproc": nproc, "seed": seed}, "events_tail": events[-14:]}
+    ctx.count("kill_rounds")
+    if hung:
+        ctx.violation("C04:sessions-blocked-after-a-writer-was-killed", "a process never finished after another process was killed inside its writing session", tag)
+        return
+    if errs:
+        ctx.violation("C04:session-fails-after-a-writer-was-killed", f"a surviving process ended with an exception: {errs[0][-200:]}", tag)
+        return
+    killed = [e for e in events if e[3] in ("kill-in-body", "kill-in-record")]
+    ctx.count("writers_killed_in_session", len(killed))
+    if any(e[3] == "survived" for e in events):
+        ctx.disagree("the victim process survived its SIGKILL", tag, "survived", "killed")
+    must, may = {f"base{j}" for j in range(3)}, set()
+    for t, pid, sid, evn, mode, data in events:
+        if evn == "endbody" and mode == "w":
+            must.update(data)
+        elif evn == "put":
+            must.update(data)                 # returned from put with bufsize 0 and flushed by the killer / lost only with the process buffer
+        elif evn == "kill-in-record":
+            may.add(data[0])
+        elif evn == "endbody" and mode == "r" and data:
+            ctx.violation("C04:reader-saw-incomplete-record", f"reading session {sid} read a damaged value for {data[:2]} after a writer was killed", tag)
+            return
+        elif evn == "timeout":
+            ctx.violation("C04:session-timed-out", f"session {sid} could not get the lock within 60 s after a writer was killed", tag)
+            return
+        if evn == "begin":
+            odd = [k for k in data if not (k.startswith("base") or k.startswith("p") or k.startswith("v"))]
+            if odd:
+                ctx.violation("C04:reader-saw-incomplete-record", f"session {sid} listed a key nobody put: {odd[:2]}", tag)
+                return
+    # the victim in the body wrote its first record with bufsize 0 but died before the flush of Python's file buffer: it may be absent
+    body_victims = {e[2] for e in events if e[3] == "kill-in-body"}
+    for t, pid, sid, evn, mode, data in events:
+        if evn == "put" and sid in body_victims:
+            must.difference_update(data)
+            may.update(data)
+    col = Collection(path, UkvCollectionBackend, readonly=False)
+    with col.writing(timeout=10):
+        col["final"] = b"finalfinalfinal"
+    with col.reading(timeout=10):
+        final = {k: col[k] for k in col.keys()}
+    must.add("final")
+    lost = sorted(k for k in must if final.get(k) != (k * 3).encode())
+    extra = sorted(k for k in final if k not in must and k not in may)
+    torn = sorted(k for k in final if final[k] != (k * 3).encode())
+    hdr, recs, clean = ukvlib.scan_file(path.read_bytes())
+    if lost:
+        ctx.violation("C04:completed-session-record-lost", f"after writers were killed in their sessions the library lacks/alters {lost[:3]}", tag)
+    elif torn or extra:
+        ctx.violation("C04:reader-saw-incomplete-record", f"after writers were killed the library shows damaged or unknown records {(torn + extra)[:3]}", tag)
+    elif not clean:
+        ctx.violation("C04:record-appended-behind-torn-tail", "after a writer was killed inside a record and later sessions appended, the file is not header + whole blocks", tag)
+
+
 def check_history(ctx, path, events, hung, errs, tag):
     """decidable serialisation spec over the merged log (writer sessions: [begin .. done/failed] intervals)"""
     from molli.storage import Collection, UkvCollectionBackend
@@ -565,6 +725,12 @@ def run(ctx):
         ctx.case(f"mp:{seed}:{nproc}:{nsess}", True)
         ctx.count("multiprocess_rounds")
         ctx.count("multiprocess_sessions", len([e for e in events if e[3] == "begin"]))
+        ctx.check_deadline()
+    # ---- writers killed inside their sessions while others keep going
+    for r in range(2 if ctx.quick() else 25):
+        seed = ctx.rng.below(1 << 30)
+        kill_round(ctx, work, 5 if ctx.quick() else ctx.rng.range(5, 9), seed)
+        ctx.case(f"kill:{seed}", True)
         ctx.check_deadline()
     # ---- processes racing to create the library
     creation_race(ctx, work, 4, 25 if ctx.quick() else 150)
